@@ -3,6 +3,7 @@ package main
 import (
 	"fmt"
 	"go/token"
+	"go/types"
 	"strings"
 
 	"golang.org/x/tools/go/ssa"
@@ -24,7 +25,9 @@ func funcsWithClosures(fn *ssa.Function) []*ssa.Function {
 	return out
 }
 
-// randomSources: SetRandom receivers (by SSA value) found in the backward slice of vals.
+// randomSources: SetRandom receivers (by SSA value) found in the backward slice of vals. A call to a same-module
+// helper that draws the scalars itself (`r, s, err := sampleBlinding()`) is looked into one level: result j of the
+// call contributes the SetRandom receivers that the helper's j-th returned value depends on.
 func randomSources(vals ...ssa.Value) map[ssa.Value]bool {
 	s := newSlicer()
 	for _, v := range vals {
@@ -34,9 +37,97 @@ func randomSources(vals ...ssa.Value) map[ssa.Value]bool {
 	for c := range s.calls {
 		if isSetRandom(c) && len(c.Call.Args) > 0 {
 			out[rootAlloc(c.Call.Args[0])] = true
+			continue
+		}
+		h := randHelper(c)
+		if h == nil {
+			continue
+		}
+		if _, isTuple := c.Type().(*types.Tuple); !isTuple {
+			for k := range h[0] {
+				out[k] = true
+			}
+			continue
+		}
+		for _, ref := range *c.Referrers() {
+			if ex, ok := ref.(*ssa.Extract); ok && s.seen[ex] {
+				for k := range h[ex.Index] {
+					out[k] = true
+				}
+			}
 		}
 	}
 	return out
+}
+
+var randHelperMemo = map[*ssa.Function]map[int]map[ssa.Value]bool{}
+
+// randHelper: for a static module callee containing SetRandom calls, result index -> SetRandom receivers (values of
+// the callee) the returned value depends on; nil otherwise.
+func randHelper(c *ssa.Call) map[int]map[ssa.Value]bool {
+	cal := c.Call.StaticCallee()
+	if cal == nil || cal.Blocks == nil || FuncPkg(cal) == nil || !strings.HasPrefix(FuncPkg(cal).Path(), modPath+"/") {
+		return nil
+	}
+	if m, ok := randHelperMemo[cal]; ok {
+		return m
+	}
+	randHelperMemo[cal] = nil
+	has := false
+	for _, b := range cal.Blocks {
+		for _, ins := range b.Instrs {
+			if cc, ok := ins.(*ssa.Call); ok && isSetRandom(cc) {
+				has = true
+			}
+		}
+	}
+	if !has {
+		return nil
+	}
+	m := map[int]map[ssa.Value]bool{}
+	for _, b := range cal.Blocks {
+		ret, ok := lastInstr(b).(*ssa.Return)
+		if !ok {
+			continue
+		}
+		for j, rv := range ret.Results {
+			sl := newSlicer()
+			sl.visit(rv)
+			for cc := range sl.calls {
+				if isSetRandom(cc) && len(cc.Call.Args) > 0 {
+					if m[j] == nil {
+						m[j] = map[ssa.Value]bool{}
+					}
+					m[j][rootAlloc(cc.Call.Args[0])] = true
+				}
+			}
+		}
+	}
+	randHelperMemo[cal] = m
+	return m
+}
+
+// helperDraws: SetRandom calls inside helpers called (unconditionally analysed by the caller) from fn.
+func helperDraws(fn *ssa.Function) (calls []*ssa.Call, draws []*ssa.Call) {
+	for _, f := range funcsWithClosures(fn) {
+		for _, b := range f.Blocks {
+			for _, ins := range b.Instrs {
+				c, ok := ins.(*ssa.Call)
+				if !ok || isSetRandom(c) || randHelper(c) == nil {
+					continue
+				}
+				calls = append(calls, c)
+				for _, hb := range c.Call.StaticCallee().Blocks {
+					for _, hi := range hb.Instrs {
+						if hc, ok := hi.(*ssa.Call); ok && isSetRandom(hc) {
+							draws = append(draws, hc)
+						}
+					}
+				}
+			}
+		}
+	}
+	return
 }
 
 func rootAlloc(v ssa.Value) ssa.Value {
@@ -94,6 +185,8 @@ func RunRandGroth16(p *Prog, r *Report) {
 				}
 			}
 		}
+		hcalls, hdraws := helperDraws(fn)
+		rnd = append(rnd, hdraws...)
 		distinct := map[ssa.Value]bool{}
 		unchecked := 0
 		for _, c := range rnd {
@@ -106,7 +199,7 @@ func RunRandGroth16(p *Prog, r *Report) {
 		// every draw is unconditional: its block dominates every successful return of Prove
 		g := buildAccGraph(p, fn, "error")
 		conditional := ""
-		for _, c := range rnd {
+		for _, c := range append(append([]*ssa.Call{}, rnd...), hcalls...) {
 			if c.Parent() != fn {
 				continue
 			}
